@@ -37,6 +37,7 @@ def main():
                                'cif_normalize on c, "a"+c+"b", c+U+0301+U+0323 (idempotence, equality for NFC/NFD/reordered marks); lookup under the case folding, the decomposition and the next code point. '
                                'tuples: all ordered pairs (thorough: triples over a 60-element core) of the %d "interesting" code points (folding expands or de-normalises, one per combining class, Hangul, U+0345, sharp s, dotted/dotless i, Kelvin/Angstrom/Ohm, sigma forms, digraphs): '
                                'idempotence and equivalence invariance of cif_normalize; packet, table, block, frame and item matching (get / duplicate create / remove) iff normalised forms are equal; most-recent key spelling; name/code length limits 2040-2050 code points with and without supplementary characters. '
+                               'ascii-codes: all ordered pairs of 62 ASCII codes that a storage layer might take for numbers, NULL, booleans or patterns (10 / 010 / 1e1 / +10, 0x10, inf, null, %%, _, quotes), as block code, frame code, data name and table key: matched iff normalised forms are equal; '
                                'non-trivial = strings that normalisation changes, or lookups that must succeed under a different spelling' % ninteresting,
                        'samples': ['_x+U+00C5 looked up as _x+U+0061? no: as _x+U+00E5 and _x+U+0061 U+030A', 'U+0345 U+031B', 'block code of 2043 / 2044 code points'],
                        'families': {k: {'evaluations': v[0], 'nontrivial': v[1]} for k, v in fam.items()},
